@@ -58,6 +58,8 @@ def scopes(tier):
         ("relocinit", sc("WorldsRelocInit", "import,importas,from,fromas", 2, 1, 3, rl, qforms="import,from")),
         ("reexport", sc("WorldsMove", "import,from,star", 2, 1, 3, mg, qforms="from,star", qsize=one,
                         features=("reexport",))),
+        ("reexportreloc", sc("WorldsReloc", "import,from,fromas,star", 2, 1, 3, rl, qforms="from", qsize=(2, 1, 2),
+                             features=("reexport",))),
         ("rootref", sc("WorldsRelocInit", "import,from", 2, 1, 3, rl, qsize=one, features=("rootref",))),
         ("asmoved", sc("WorldsAsMoved", "from,fromas", 2, 1, 3, mg + rl, qforms="fromas", qsize=one,
                        features=("asmoved",))),
